@@ -317,6 +317,17 @@ def write_replay(pid, name, lines, header):
     return path
 
 
+def sweep_scratch():
+    """scratch directories of harness processes that were killed before they could clean up (older than 6 hours)"""
+    import glob, shutil, time
+    for d in glob.glob("/tmp/hv-*"):
+        try:
+            if time.time() - os.path.getmtime(d) > 6 * 3600:
+                shutil.rmtree(d, ignore_errors=True)
+        except OSError:
+            pass
+
+
 def main(argv):
     import argparse
     ap = argparse.ArgumentParser()
@@ -326,6 +337,7 @@ def main(argv):
     ap.add_argument("--replay", default=None)
     ap.add_argument("--n", type=int, default=None)
     a = ap.parse_args(argv)
+    sweep_scratch()
     pid, tier = a.pid, ("thorough" if a.tier == "thorough" else "quick")
     if pid not in PROPS:
         print(f"unknown property {pid}")
